@@ -25,6 +25,9 @@ RULE = ('a case = an initial Loop tree (depth <= 3, <= 3 children per node, coun
         'count 0, unroll of the root, merge with measurements).  Plus exhaustive histories over a fixed 18-operation '
         'alphabet on seed trees (quick: length 2 on 2 trees, thorough: length <= 3 on 3 trees); roll-centred histories; == against a structural copy that is left unchanged or changed in exactly one respect.  After EVERY operation '
         'every reachable node is observed (reported duration, parent_index, parent identity, locate(get_location())).  '
+        'Round 2: forest histories - the harness keeps references to nodes (hold), removes them from the program in '
+        'every way the API offers (slice / int assignment, unroll, merge, cleanup, reversed slice) and then edits the '
+        'held node; the program and every held subtree outside it are observed after every step.  '
         'Non-trivial = history with >= 2 effective (non-query, non-raising) edits and >= 1 duration query before an edit; '
         'distinct = distinct canonical JSON of the case.')
 TRUSTED = [
@@ -33,7 +36,7 @@ TRUSTED = [
     'waveforms are abstract (duration, constant value / ramp id, reversal flag): ConstantWaveform, TableWaveform and '
     'ReversedWaveform are used as opaque leaves; their own behaviour is C08',
     'weak parent references never die (the harness keeps every Loop object alive); operations address nodes by their '
-    'position below the root, objects that dropped out of the tree are never edited again',
+    'position below the root or below a node the harness holds a reference to',
     'harness: generators, observation code (reads Loop.duration with a generic save/restore of all slots so that '
     'observing does not populate caches), exact rational conversion, Gallina printers',
 ]
@@ -879,23 +882,24 @@ def search_failing(ctx, broken):
 
 
 MANIFEST = {
-    'level_text': 'Proof (partial): heap model of the concrete Loop/Node object state with every public editing operation as '
-                  'a heap transformer.  Proved for all heaps, nodes and arguments (unbounded, by induction; no axioms): every '
+    'level_text': 'Proof: heap model of the concrete Loop/Node object state with every public editing operation as a heap '
+                  'transformer.  Proved for all heaps, nodes and arguments (unbounded, by induction; no axioms): every '
                   'constructed tree satisfies the invariant (cached duration = recomputed, recorded position = position, '
-                  'parent = lister); it is preserved by append_child of any fresh tree or copy (incl. the incremental cache '
-                  'patch along the parent chain), by __setitem__ with any integer index, by the waveform / repetition_count / repetition_definition setters, by the '
-                  'memoising duration queries, hence by every finite history over these operations; the reset walk restores '
-                  'it after any change below a node; Loop.__eq__ reads structure/counts/waveforms/measurements only.  '
-                  'A general regraft lemma (children list replaced by kept and fresh children) is proved.  NOT proved '
-                  '(C09_step_statement stays open): __setitem__ with a slice, unroll, unroll_children, '
-                  'split_one_child, encapsulate, merge/cleanup, reverse_inplace, roll_constant_waveforms - for these the '
-                  'invariant is evaluated on the real objects after every step of random and small-scope exhaustive '
-                  'histories (check_spec) and the model is compared with the code step by step (check_corr).',
+                  'parent = lister); one step and hence EVERY FINITE HISTORY over the whole operation alphabet preserves it '
+                  '(C09_step / C09_history): append_child (incremental cache patch), __setitem__ with an int and with a '
+                  'simple slice (renumbering loops, detaching of replaced children), setters, memoising queries, unroll, '
+                  'unroll_children, split_one_child, encapsulate, merge, cleanup (recursive), reverse_inplace (recursive; '
+                  'duration invariant under list reversal), roll_constant_waveforms, copies, == - inside the argument '
+                  'domain guard_C09_args: slice step None or 1, minimal_waveform_quanta >= 1.  Loop.__eq__ reads '
+                  'structure/counts/waveforms/measurements only.  NOT proved: extended slices (explicit step other '
+                  'than 1; C09_step_statement stays open for them), operations on nodes that dropped out of the program '
+                  '(C09_forest_statement) - both are modelled and checked step by step against the code (check_corr) '
+                  'and against the invariant evaluated on the real objects (check_spec).',
     'level_note': 'Trusted: Coq kernel + vm_compute; the hand-written model (tied to /repo by correspondence only, no '
-                  'translator); abstract waveforms; parent weak references as plain ids (objects kept alive); nodes addressed '
-                  'by path from the root, inserted values are fresh objects; fuel exhaustion excluded by hypothesis, not '
-                  'proved impossible; Prop-level Inv and the boolean check_spec are the same clauses by inspection only; '
-                  'harness observation code.',
+                  'translator); abstract waveforms; parent weak references as plain ids (objects kept alive); inserted '
+                  'values are fresh objects; fuel exhaustion / dangling ids excluded by hypothesis, not proved impossible; '
+                  'Prop-level Inv and the boolean check_spec are the same clauses by inspection only; for '
+                  'minimal_waveform_quanta <= 0 the model does not follow the code; harness observation code.',
     'technique': 'Coq proof over a heap model + step-by-step correspondence check on operation histories',
     'design_ref': 'DESIGN.md §5 C09, §4.5; notes/C09.md',
 }
